@@ -243,3 +243,58 @@ if __name__ == '__main__':
         if r[4]:
             print('MUTATED', r)
     print(len(tasks), time.time() - t0)
+
+
+def replace_validates(omitted: bool = False):
+    """Concrete companion (sampling): objects the API returns are well formed - Model.replace / Model.create refuse a
+    model in which a statement uses a symbol that is neither a parameter, a random variable, a data column, the time
+    variable nor defined earlier; this must not depend on WHICH arguments are passed together or on whether an argument is
+    the object the model already holds."""
+    import pharmpy.modeling as pm
+    from pharmpy.model import Parameters, RandomVariables
+    m = pm.load_example_model('pheno')
+    bad = []
+
+    def refused(label, f):
+        try:
+            m2 = f()
+        except ValueError:
+            return
+        except Exception as e:  # noqa
+            bad.append(f'{label}: raised {type(e).__name__} instead of ValueError')
+            return
+        # accepted: then every symbol must be defined
+        free = set()
+        defined = {str(s) for s in m2.parameters.symbols} | {str(s) for s in m2.random_variables.symbols} | \
+            set(m2.datainfo.names) | {'t'}
+        for st in m2.statements:
+            for s in st.rhs_symbols:
+                if str(s) not in defined and not str(s).startswith('A_'):
+                    free.add(str(s))
+            if hasattr(st, 'symbol'):
+                defined.add(str(st.symbol))
+        if free:
+            bad.append(f'{label}: accepted a model with undefined symbols {sorted(free)[:3]}')
+    fewer_p = Parameters.create([p for p in m.parameters if p.name != 'POP_CL'])
+    fewer_rv = RandomVariables.create([d for d in m.random_variables if 'ETA_CL' not in d.names])
+    di = m.datainfo
+    fewer_di = type(di).create([c for c in di if c.name != 'WGT'], path=di.path, separator=di.separator)
+    df = m.dataset.drop(columns=['WGT'])
+    same, copy = m.statements, m.statements[0:len(m.statements)]
+    cases = (('omitted', None),) if omitted else (('same object', same), ('equal copy', copy))
+    for tag, st in cases:
+        kw = {} if st is None else dict(statements=st)
+        refused(f'parameters without POP_CL, statements {tag}', lambda: m.replace(parameters=fewer_p, **kw))
+        refused(f'random variables without ETA_CL, statements {tag}',
+                lambda: m.replace(random_variables=fewer_rv, **kw))
+        refused(f'datainfo/dataset without WGT, statements {tag}',
+                lambda: m.replace(datainfo=fewer_di, dataset=df, **kw))
+    # control: a consistent replacement is accepted
+    try:
+        m.replace(parameters=m.parameters, statements=m.statements)
+        m.replace(statements=m.statements)
+    except Exception as e:  # noqa
+        bad.append(f'consistent replacement refused: {type(e).__name__}: {e}')
+    if bad:
+        raise AssertionError('; '.join(bad[:4]))
+    return True
